@@ -52,8 +52,8 @@ Definition dispatch_ecdh (op : string) (a : list arg) : list arg :=
   else if String.eqb op "ellswift_xdh"%string then
     let kind := I 4%nat in
     let run h := ellswift_xdh P h (B 0%nat) (B 1%nat) (B 2%nat) (I 3%nat) in
-    if kind =? 0 then run xdh_hash_bip324
-    else if kind =? 1 then run (xdh_hash_prefix (B 5%nat))
+    if (kind =? 0) || (kind =? 5) then run xdh_hash_bip324
+    else if (kind =? 1) || (kind =? 6) then run (xdh_hash_prefix (B 5%nat))
     else if kind =? 2 then run (xdh_test_hash 1 (O 5%nat))
     else if kind =? 3 then run (xdh_test_hash 0 (O 5%nat))
     else if kind =? 4 then [AInt 0; AIll 1]
